@@ -458,6 +458,18 @@ def main():
             if st == "pass":
                 ok = False
                 break
+        orig = casefile[:-len(".fail.case")] + ".fail.orig.case" if casefile.endswith(".fail.case") else None
+        if not ok and orig and os.path.exists(orig):
+            # the shrunk case does not fail reliably (schedule-dependent failures): try the case as it was generated
+            ok = True
+            for _ in range(reps):
+                st, out = replay_case(exe, prop, orig, kf_all, mode)
+                last = out
+                if st == "pass":
+                    ok = False
+                    break
+            if ok:
+                casefile = orig
         if not ok:
             inconclusive.append("failure did not reproduce from its replay file (%s): %s" % (casefile, what[:200]))
             return
